@@ -386,13 +386,18 @@ def _build_state(cfg, mask=None, deck_seed=None):
     if game == 'CUSTOM':
         d = cfg['custom']
         streets = []
+        shared = {}
         for burn, hole, board, draw, opening, amt, cnt in d['streets']:
-            streets.append(
-                Street(
-                    bool(burn), tuple(bool(x) for x in hole), int(board),
-                    bool(draw), Opening[opening], chip(cfg, amt), cnt,
-                ),
+            street = Street(
+                bool(burn), tuple(bool(x) for x in hole), int(board),
+                bool(draw), Opening[opening], chip(cfg, amt), cnt,
             )
+            if d.get('share_streets'):
+                # equal definitions are one object, used more than once
+                street = shared.setdefault(
+                    repr((burn, hole, board, draw, opening, amt, cnt)),
+                    street)
+            streets.append(street)
         return State(
             autos,
             Deck[d['deck']],
